@@ -393,6 +393,21 @@ func (e GovEngine) setupSteps(r *Run) []Step {
 	if st.C14 != nil {
 		out = append(out, st.C14.setupSteps(r)...)
 	}
+	if (r.Prop == "C15" || r.Cfg.Knob("c07_engine") == "gov") && rng.IntN(4) == 0 {
+		// prelude: a passed proposal whose handler PANICS (recovered by the executor, recorded as the failure
+		// reason): somebody donates to the gov account - its invariant "balance == deposits" is then broken - and the
+		// first proposal of the run asks the crisis module to verify that invariant
+		out = append(out,
+			Step{Kind: "block", DtMs: 5000, N: 1, Txs: []Tx{{K: "g_send", S: KeyName("user", 0), A: A("to", "mod:gov", "amount", FX(int64(1+rng.IntN(9))).String())}}},
+			Step{Kind: "block", DtMs: 5000, N: 1, Txs: []Tx{{K: "g_submit", S: KeyName("user", 0), A: A("spec", gitem("verifyinv", "module", "gov", "route", "module-account"), "deposit", FX(r.Cfg.World.GovMinDepositFX).String(), "title", "verify")}}})
+		var votes []Tx
+		for i := 0; i < st.NVal; i++ {
+			votes = append(votes, Tx{K: "g_vote", S: KeyName("val", i), A: A("id", 1, "opts", "1")})
+		}
+		out = append(out, Step{Kind: "block", DtMs: 5000, N: 1, Txs: votes},
+			Step{Kind: "block", DtMs: (r.Cfg.World.GovVotingSec + 20) * 1000, N: 2})
+		r.Probe("gov-prelude-panicking-handler")
+	}
 	return out
 }
 
